@@ -64,6 +64,7 @@ def run(ctx):
     vlib.note_events(ctx, ev)
     vlib.call_history_model(ctx)
     vlib.call_histories(ctx, bins["address"], ta, ["address.Bech32", "address.Parse"], "AddressTrace", "real address.Bech32 / ParseBech32 disagrees with the Address specification")
+    vlib.call_histories(ctx, bins["migration"], tm, ["migration.Decode", "migration.Encode"], "AddressTrace", "real migration.Encode / Decode disagrees with the Migration specification")
     vlib.call_concurrent(ctx, bins["address"], ta, ["address.Bech32", "address.Parse"], "AddressTrace", "real address.Bech32 / ParseBech32 disagrees with the Address specification")
     bad = vlib.validate_trace(ctx, "AddressTrace", ev)
     for pk, binp in bins.items():
